@@ -428,6 +428,7 @@ Section Core.
     (let jm := if jm <? #0 then - jm else jm in
      let am := if am <? #0 then - am else am in
      let vm := if vm <? #0 then - vm else vm in
+     if orb (eqb O jm #0) (orb (eqb O am #0) (eqb O vm #0)) then (b_set_t #0 c, #0, BX_fail_zero, 0%nat) else
      let v0 := sat O v0 (- vm) vm in
      let v1 := sat O v1 (- vm) vm in
      let c := b_set_v1 v1 (b_set_v0 v0 (b_set_p1 p1 (b_set_p0 p0 c))) in
@@ -603,15 +604,18 @@ Proof.
 Qed.
 
 Theorem bell_gen_wf fuel c0 jm am vm p0 p1 v0 v1 :
-  jm <> 0 -> am <> 0 -> vm <> 0 ->
   bell_gen_post jm am vm p0 p1 v0 v1 (bell_gen_b R_ops fuel c0 jm am vm p0 p1 v0 v1).
 Proof.
-  intros Hjm Ham Hvm. unfold bell_gen_post, bell_feasible. rewrite bell_gen_core. cbv zeta. unfold_ops. rewrite !abs_if.
+  unfold bell_gen_post, bell_feasible. rewrite bell_gen_core. cbv zeta. unfold_ops. rewrite !abs_if.
+  (* zero limits: the generator returns 0 *)
+  destruct (Reqb_spec (Rabs jm) 0) as [?|Hjm]; [cbn [orb]; intros; lra|].
+  destruct (Reqb_spec (Rabs am) 0) as [?|Ham]; [cbn [orb]; intros; lra|].
+  destruct (Reqb_spec (Rabs vm) 0) as [?|Hvm]; [cbn [orb]; intros; lra|]. cbn [orb].
   fold (clampR v0 vm). fold (clampR v1 vm).
   pose proof (clamp_range v0 vm) as Hw0. pose proof (clamp_range v1 vm) as Hw1.
-  assert (HJ : 0 < Rabs jm) by (apply Rabs_pos_lt; assumption).
-  assert (HA : 0 < Rabs am) by (apply Rabs_pos_lt; assumption).
-  assert (HV : 0 < Rabs vm) by (apply Rabs_pos_lt; assumption).
+  assert (HJ : 0 < Rabs jm) by (pose proof (Rabs_pos jm); lra).
+  assert (HA : 0 < Rabs am) by (pose proof (Rabs_pos am); lra).
+  assert (HV : 0 < Rabs vm) by (pose proof (Rabs_pos vm); lra).
   set (JM := Rabs jm) in *. set (AM := Rabs am) in *. set (VM := Rabs vm) in *.
   set (w0 := clampR v0 vm) in *. set (w1 := clampR v1 vm) in *.
   set (cin := b_set_v1 w1 (b_set_v0 w0 (b_set_p1 p1 (b_set_p0 p0 c0)))).
